@@ -174,11 +174,22 @@ def aftersign_case(cfg, d, hhex):
         return out
     v, r, s = o[1]
     z = int.from_bytes(h, "big")
-    for (v2, s2, h2) in ((v, 0, h), (v, m.n, h), (v, 2 * m.n, b"\x01" * 32), (55 - v, s, h), (v, s, h), (v, s + m.n, h)):
-        z2 = int.from_bytes(h2, "big")
-        exp = _expected(m, None, v2, r, s2, z2)
-        got = _observe(S, h2, v2, r, s2)
-        out.append(((v2, s2), exp, got))
+    M61 = 2 ** 61 - 1  # ints that differ by a multiple of it have equal hash() in CPython
+    zc = (z + M61) if z + M61 < 2 ** (8 * len(h)) else (z - M61)
+    hc = zc.to_bytes(len(h), "big") if len(h) and zc >= 0 else h
+    text = h.decode("latin-1")  # the digest as a text string, one character per byte
+    for (v2, r2, s2, h2) in ((v, r, 0, h), (v, r, m.n, h), (v, r, 2 * m.n, b"\x01" * 32), (55 - v, r, s, h), (v, r, s, h),
+                             (v, r, s + m.n, h),
+                             # arguments whose hash() collides with the honest call just made
+                             (v, r, s + M61, h), (v, r, s, hc), (v, r + M61, s, h), (v + M61, r, s, h),
+                             (v, r, s + M61 * m.n, h), (v, r, M61 * m.n, h), (v, r, s, h),
+                             (v, r, s, text), (v, r, s, h)):
+        z2 = int.from_bytes(h2.encode("latin-1") if isinstance(h2, str) else h2, "big")
+        exp = _expected(m, None, v2, r2, s2, z2)
+        got = _observe(S, h2, v2, r2, s2)
+        if exp == ("undefined",):  # r >= P (tiny curves): the call is made (history), its outcome is not judged
+            continue
+        out.append(((v2, r2 - r, s2, h2 if isinstance(h2, str) else h2.hex()[:16]), exp, got))
     return out
 
 
